@@ -154,17 +154,31 @@ func runTLSScenario(rec *recorder, id string, events []tlsEvent, cas map[string]
 		os.Remove(file)
 		os.RemoveAll(filepath.Dir(dataFile(gen)))
 	}()
-	rec.emit(map[string]any{"ev": "treset", "scenario": id})
+	// what the file holds when the history begins (the first event says so)
+	initial := "ca1"
+	if len(events) > 0 && events[0].Op == "start" {
+		initial = events[0].Content
+		events = events[1:]
+	}
+	if initial != "ca1" {
+		if err := os.WriteFile(dataFile(0), contentBytes(cas, initial), 0o600); err != nil {
+			return err
+		}
+	}
+	rec.emit(map[string]any{"ev": "treset", "scenario": id, "content": initial})
 	var loaded []loadedCfg
 	dirty, refreshing := false, false
 	rewrites := 0
-	content := "ca1"
+	content := initial
 	refreshingCfg := map[int]bool{}
 	ptrs := map[*tls.Config]string{}
 	observe := func() []any {
 		out := []any{}
 		for _, lc := range loaded {
-			o := map[string]any{"ca1": handshake(lc.cfg, pool, cas["ca1"].addr), "ca2": handshake(lc.cfg, pool, cas["ca2"].addr), "ptr": lc.ptr}
+			o := map[string]any{"ca1": handshake(lc.cfg, pool, cas["ca1"].addr), "ca2": handshake(lc.cfg, pool, cas["ca2"].addr), "ptr": lc.ptr, "sys": true}
+			if sysCA, ok := cas["sys"]; ok {
+				o["sys"] = handshake(lc.cfg, pool, sysCA.addr) // a server certified by an authority of the system pool
+			}
 			o["ca1Kept"], o["ca2Kept"] = get(lc.kept, cas["ca1"].addr), get(lc.kept, cas["ca2"].addr)
 			out = append(out, o)
 		}
@@ -206,10 +220,7 @@ func runTLSScenario(rec *recorder, id string, events []tlsEvent, cas map[string]
 			}
 		case "rewrite":
 			content = e.Content
-			data := []byte("this is not a certificate")
-			if ca, ok := cas[e.Content]; ok {
-				data = ca.pem
-			}
+			data := contentBytes(cas, e.Content)
 			rewrites++
 			how := (len(id)*7 + int(id[len(id)-1]) + rewrites) % 3 // which way this rotation is made varies with the scenario and the rotation
 			if how == 0 {
@@ -245,7 +256,8 @@ func runTLSScenario(rec *recorder, id string, events []tlsEvent, cas map[string]
 			// something unusable, or nothing changed since the last wait, nothing is expected to change and ten intervals do.
 			time.Sleep(3 * tlsInterval)
 			if dirty && refreshing {
-				if ca, usable := cas[content]; usable {
+				if content == "ca1" || content == "ca2" || content == "bundle" {
+					want1, want2 := content != "ca2", content != "ca1"
 					deadline := time.Now().Add(200 * tlsInterval)
 					for time.Now().Before(deadline) {
 						all := true
@@ -253,11 +265,7 @@ func runTLSScenario(rec *recorder, id string, events []tlsEvent, cas map[string]
 							if !refreshingCfg[i] {
 								continue
 							}
-							other := cas["ca1"]
-							if ca == cas["ca1"] {
-								other = cas["ca2"]
-							}
-							if !handshake(lc.cfg, pool, ca.addr) || handshake(lc.cfg, pool, other.addr) {
+							if handshake(lc.cfg, pool, cas["ca1"].addr) != want1 || handshake(lc.cfg, pool, cas["ca2"].addr) != want2 {
 								all = false
 								break
 							}
@@ -296,11 +304,20 @@ func runTLSFile(in, out, tmp string) (int, error) {
 	}
 	defer rec.close()
 	cas := map[string]*testCA{}
-	for _, n := range []string{"ca1", "ca2"} {
+	for _, n := range []string{"ca1", "ca2", "sys"} {
 		if cas[n], err = newTestCA(n); err != nil {
 			return 0, err
 		}
 		defer cas[n].ln.Close()
+	}
+	// "the system roots": the runner points SSL_CERT_FILE at a file that does not exist yet; it is written here, before the
+	// process builds its first system pool (x509 reads it once, at first use)
+	if sysFile := os.Getenv("SSL_CERT_FILE"); sysFile != "" && strings.Contains(sysFile, "verif-sysroots") {
+		if err := os.WriteFile(sysFile, cas["sys"].pem, 0o600); err != nil {
+			return 0, err
+		}
+	} else {
+		delete(cas, "sys") // no controllable system pool: the system-roots observation is not made
 	}
 	sc := bufio.NewScanner(f)
 	sc.Buffer(make([]byte, 1<<20), 1<<26)
@@ -323,4 +340,18 @@ func runTLSFile(in, out, tmp string) (int, error) {
 		n++
 	}
 	return n, sc.Err()
+}
+
+
+// contentBytes renders a content class of the CA file: one authority, both (a bundle), nothing, or no certificate at all.
+func contentBytes(cas map[string]*testCA, c string) []byte {
+	switch c {
+	case "ca1", "ca2":
+		return cas[c].pem
+	case "bundle":
+		return append(append([]byte{}, cas["ca1"].pem...), cas["ca2"].pem...)
+	case "empty":
+		return []byte{}
+	}
+	return []byte("this is not a certificate")
 }
